@@ -31,6 +31,13 @@ EXTRA = {   # seeds whose own property's check does not report them, with the ch
 }
 
 
+def _summary(meta):
+    summary = (meta.get("summary") or meta.get("description") or "").replace("|", "/").replace("\n", " ")
+    if len(summary) > 230:
+        summary = summary[:227] + "..."
+    return summary
+
+
 def main(files):
     res = {}
     for f in files:
@@ -48,8 +55,12 @@ def main(files):
             meta = json.load(open(os.path.join(d, "meta.json")))
         except Exception:
             meta = {}
-        rc, nv, first = res.get(sid, ("?", 0, ""))
         prop = sid.split("-")[0]
+        if sid not in res and meta.get("detected_by"):   # no fresh result given: keep the outcome recorded by the earlier run
+            ob = (meta.get("first_failed_obligation") or "") if meta["detected_by"].startswith("caught") else ""
+            rows.append((sid, _summary(meta), meta["detected_by"], ob[:200]))
+            continue
+        rc, nv, first = res.get(sid, ("?", 0, ""))
         ob = ""
         m = re.search(r"obligation (.*?) :: (.*?) \(", first)
         if m:
@@ -65,10 +76,7 @@ def main(files):
             verdict = f"{prop} exits {rc} (no VIOLATION line)"
         if extra:
             verdict += f"; {extra}"
-        summary = (meta.get("summary") or "").replace("|", "/").replace("\n", " ")
-        if len(summary) > 230:
-            summary = summary[:227] + "..."
-        rows.append((sid, summary, verdict, ob[:200]))
+        rows.append((sid, _summary(meta), verdict, ob[:200]))
         meta["run_against"] = f"/repo HEAD {head}, bin/check {prop} --tier quick on a scratch worktree with the patch applied"
         meta["detected_by"] = verdict
         if ob:
